@@ -105,7 +105,7 @@ def uamiv_struct(c):
             f32_word(g['delx']), f32_word(g['dely'])]
     gpost = [g['iproj'], g['istag'], f32_word(g['tlat1']), f32_word(g['tlat2']), f32_word(0.0)]
     return dict(name=char_words(c['name'], 10), note=char_words(c['note'], 60), itzon=c['itzon'], dates=dates,
-                gpre=gpre, nx=c['nx'], ny=c['ny'], nz=c['nz'], gpost=gpost,
+                gpre=gpre, nx=c['nx'], ny=c['ny'], nz=c.get('nz_header', c['nz']), gpost=gpost,
                 spc=[char_words(n, 10) for n in c['names']],
                 steps=[([s['bdate'], f32_word(float(s['bhour'])), s['edate'], f32_word(float(s['ehour']))], s['data'])
                        for s in c['steps']])
